@@ -171,13 +171,15 @@ def gen_problem(rng, harmonic=None, size_nodes=60, force=None):
         lab = dict(maxarea=d / 1.4)
         if kind == "coil":
             turns = rng.choice([1, 5, 100, 20])
-            sig = rng.choice([0.0, 58.0])
+            sig = force.get("coil_sigma", rng.choice([0.0, 58.0]))
+            cj = force.get("coil_J")
             if coil_mode == "series":
-                m = copper("coil%d" % k, sigma=sig, J=0.0)
+                m = copper("coil%d" % k, sigma=sig, J=(rng.choice([0.0, 0.0, 0.5]) if cj is None else cj))
                 lab.update(circuit=c_ser, turns=turns if ncoil == 0 else -turns)
                 feats.append("coil:series:turns%s" % ("1" if turns == 1 else "N"))
             elif coil_mode == "parallel":
-                m = copper("coil%d" % k, sigma=rng.choice([0.0, 58.0, 10.0]) if ncoil == 0 else sig, J=rng.choice([0.0, 1.0]))
+                m = copper("coil%d" % k, sigma=(rng.choice([0.0, 58.0, 10.0]) if ncoil == 0 else sig) if "coil_sigma" not in force else sig,
+                           J=(rng.choice([0.0, 1.0]) if cj is None else cj))
                 lab.update(circuit=c_par, turns=1)
                 feats.append("coil:parallel")
             elif coil_mode == "mixedwound":
